@@ -39,6 +39,9 @@ LAMBDA_SRC = {
 def is_shortcut_call(n) -> bool:
     return (
         isinstance(n, ast.Call) and isinstance(n.func, ast.Name) and n.func.id in SHORT and len(n.args) == 1
+        # exactly one argument: a keyword argument or a starred argument makes it a call with another argument count,
+        # which the property says is left unchanged (wave-9 audit)
+        and not n.keywords and not isinstance(n.args[0], ast.Starred)
     )
 
 
@@ -137,7 +140,7 @@ def check_cases(ctx, srcs):
                   tags=["has-shortcut" if nontrivial else "no-shortcut"])
         if any(is_shortcut_call(n) for n in ast.walk(out)):
             ctx.violate({"src": src, "out": ast.unparse(out)}, "a one-argument shortcut call remains")
-        kw = any(is_shortcut_call(n) and n.keywords for n in ast.walk(orig))
+        kw = False
         if not kw and not reference_ok(orig, out):
             ctx.violate({"src": src, "out": ast.unparse(out)},
                         "result is not the original with exactly the one-argument shortcut calls replaced by Aggregate folds")
